@@ -27,6 +27,25 @@ type C12Reader struct {
 type C12Chunk struct {
 	Off int `json:"off"` // first height = prefill+1+off
 	N   int `json:"n"`
+	// Shape of the one Append call (C12 only): "" = N adjacent headers ascending; "gap" = every other height
+	// (off, off+2, ...); "desc" = N adjacent headers in descending order
+	Shape string `json:"shape,omitempty"`
+}
+
+// heights lists what one chunk appends, in call order.
+func (c C12Chunk) heights(base uint64) []uint64 {
+	var out []uint64
+	for i := 0; i < c.N; i++ {
+		switch c.Shape {
+		case "gap":
+			out = append(out, base+uint64(c.Off)+uint64(2*i))
+		case "desc":
+			out = append(out, base+uint64(c.Off)+uint64(c.N-1-i))
+		default:
+			out = append(out, base+uint64(c.Off)+uint64(i))
+		}
+	}
+	return out
 }
 
 type C12Scenario struct {
@@ -66,7 +85,8 @@ func genC12(t *rapid.T) C12Scenario {
 		nc := rapid.IntRange(1, 3).Draw(t, "nchunks")
 		var w []C12Chunk
 		for j := 0; j < nc; j++ {
-			w = append(w, C12Chunk{Off: rapid.IntRange(0, 15).Draw(t, "coff"), N: rapid.IntRange(1, 4).Draw(t, "cn")})
+			w = append(w, C12Chunk{Off: rapid.IntRange(0, 15).Draw(t, "coff"), N: rapid.IntRange(1, 4).Draw(t, "cn"),
+				Shape: rapid.SampledFrom([]string{"", "", "", "gap", "desc"}).Draw(t, "cshape")})
 		}
 		s.Writers = append(s.Writers, w)
 	}
@@ -170,7 +190,7 @@ func runC12(t *testing.T, s C12Scenario) (res Result) {
 		for wi, w := range s.Writers {
 			wi, w := wi, w
 			for _, c := range w {
-				for h := base + uint64(c.Off); h < base+uint64(c.Off)+uint64(c.N); h++ {
+				for _, h := range c.heights(base) {
 					stored[h] = true
 				}
 			}
@@ -178,8 +198,11 @@ func runC12(t *testing.T, s C12Scenario) (res Result) {
 				defer func() { wdone <- struct{}{} }()
 				for ci, c := range w {
 					sc.Yield(fmt.Sprintf("w%d:append%d", wi, ci))
-					from := base + uint64(c.Off)
-					_ = e.st.Append(ctx, e.chain.Range(from, from+uint64(c.N))...)
+					var hs []*vh.Header
+					for _, h := range c.heights(base) {
+						hs = append(hs, e.chain.At(h))
+					}
+					_ = e.st.Append(ctx, hs...)
 				}
 			}()
 		}
@@ -320,6 +343,7 @@ func TestC12(t *testing.T) { check(t, "C12", genC12, runC12) }
 //	6: store [1,2]; batch 4; readers GetByHeight(3), GetByHeight(4); writer Append(3,4)
 //	7: store [1,2]; batch 4; readers GetByHeight(3), GetByHeight(5) (never appended: must keep waiting); writer Append(3)
 //	8: store [4,5]; batch 4; readers GetByHeight(3) (below the tail: ErrNotFound), GetByHeight(6); writer Append(6)
+//	9: store [1,2]; batch 4; readers GetByHeight(5), GetByHeight(4) (never appended); writer Append(3,5) in one call
 var c12EnumConfigs = []C12Scenario{
 	{Cfg: StoreCfg{Batch: 4, StoreCache: 8, IndexCache: 8}, Tail: 1, Prefill: 2,
 		Readers: []C12Reader{{Off: 0, CancelAt: -1}}, Writers: [][]C12Chunk{{{Off: 0, N: 1}}}},
@@ -339,12 +363,14 @@ var c12EnumConfigs = []C12Scenario{
 		Readers: []C12Reader{{Off: 0, CancelAt: -1}, {Off: 2, CancelAt: -1}}, Writers: [][]C12Chunk{{{Off: 0, N: 1}}}},
 	{Cfg: StoreCfg{Batch: 4, StoreCache: 8, IndexCache: 8}, Tail: 4, Prefill: 2,
 		Readers: []C12Reader{{Off: -3, CancelAt: -1}, {Off: 0, CancelAt: -1}}, Writers: [][]C12Chunk{{{Off: 0, N: 1}}}},
+	{Cfg: StoreCfg{Batch: 4, StoreCache: 8, IndexCache: 8}, Tail: 1, Prefill: 2,
+		Readers: []C12Reader{{Off: 2, CancelAt: -1}, {Off: 1, CancelAt: -1}}, Writers: [][]C12Chunk{{{Off: 0, N: 2, Shape: "gap"}}}},
 }
 
 func TestC12Enum(t *testing.T) {
 	runEnum(t, "C12", c12EnumConfigs, func(s C12Scenario, tape []int) C12Scenario {
 		s.Tape, s.DSYield, s.DSReadsOnly, s.Canonical = tape, true, true, true
 		return s
-	}, runC12, map[int]bool{0: true, 1: true, 2: true, 3: true, 4: true, 5: true, 6: true, 7: true, 8: true})
+	}, runC12, map[int]bool{0: true, 1: true, 2: true, 3: true, 4: true, 5: true, 6: true, 7: true, 8: true, 9: true})
 }
 func TestC12Replay(t *testing.T) { replay(t, "C12", runC12) }
